@@ -21,6 +21,9 @@ package mux
 //@   invariant #stopchan self.stopChan != nil && (!self.closed ==> !chanclosed(self.stopChan))
 //@   invariant #sleeponlyifempty (self.closed ==> sleepers(self.cond) == 0) && (sleepers(self.cond) > 0 ==> self.reqList.lcnt <= woken(self.cond))
 //
+// lastAdded: the request handed to the most recent AddReq/AddPriorReq (ghost, written inside the critical section)
+//@ ghost lastAdded interface{}
+//@ ghost lastQ *Q
 //@ pure errsOK() bool = ErrClosed != nil && ErrQFull != nil && ErrSync != nil && ErrClosed != ErrQFull && ErrClosed != ErrSync && ErrQFull != ErrSync
 //@ pure same(l *list.List) bool = l.lcnt == cs(l.lcnt) && l.lmem == cs(l.lmem) && (forall e *list.Element :: { e.lrk } cs(l.lmem[e]) ==> e.lrk == cs(e.lrk)) && (forall e *list.Element :: { e.Value } cs(l.lmem[e]) ==> e.Value == cs(e.Value))
 //@ pure kept(l *list.List) bool = (forall e *list.Element :: { e.lrk } cs(l.lmem[e]) ==> e.lrk == cs(e.lrk)) && (forall e *list.Element :: { e.Value } cs(l.lmem[e]) ==> e.Value == cs(e.Value))
@@ -33,7 +36,10 @@ package mux
 //@   ensures #atback result == nil ==> forall e *list.Element :: { a.reqList.lmem[e] } a.reqList.lmem[e] ==> (cs(a.reqList.lmem[e]) || (e.Value == req && forall x *list.Element :: { cs(a.reqList.lmem[x]) } cs(a.reqList.lmem[x]) ==> x.lrk < e.lrk))
 //@   ensures #nolost forall e *list.Element :: { cs(a.reqList.lmem[e]) } cs(a.reqList.lmem[e]) ==> a.reqList.lmem[e]
 //@   ensures #closedsame a.closed == cs(a.closed)
-//@   modifies region($chanclosed), Q.closed, a.reqList.lmem, a.reqList.lcnt, list.Element.lrk, list.Element.Value
+//@   atrelease lastAdded = req
+//@   atrelease lastQ = a
+//@   ensures #recorded lastAdded == req && lastQ == a
+//@   modifies region($chanclosed), Q.closed, a.reqList.lmem, a.reqList.lcnt, list.Element.lrk, list.Element.Value, lastAdded, lastQ
 //
 //@ func Q.AddPriorReq
 //@   requires !held(a.lock) && a.reqList != nil && errsOK()
@@ -41,7 +47,10 @@ package mux
 //@   ensures #added !cs(a.closed) ==> result == nil && a.reqList.lcnt == cs(a.reqList.lcnt) + 1 && kept(a.reqList)
 //@   ensures #atfront result == nil ==> forall e *list.Element :: { a.reqList.lmem[e] } a.reqList.lmem[e] ==> (cs(a.reqList.lmem[e]) || (e.Value == req && forall x *list.Element :: { cs(a.reqList.lmem[x]) } cs(a.reqList.lmem[x]) ==> e.lrk < x.lrk))
 //@   ensures #nolost forall e *list.Element :: { cs(a.reqList.lmem[e]) } cs(a.reqList.lmem[e]) ==> a.reqList.lmem[e]
-//@   modifies region($chanclosed), Q.closed, a.reqList.lmem, a.reqList.lcnt, list.Element.lrk, list.Element.Value
+//@   atrelease lastAdded = req
+//@   atrelease lastQ = a
+//@   ensures #recorded lastAdded == req && lastQ == a
+//@   modifies region($chanclosed), Q.closed, a.reqList.lmem, a.reqList.lcnt, list.Element.lrk, list.Element.Value, lastAdded, lastQ
 //
 //@ func Q.Close
 //@   requires !held(a.lock) && a.reqList != nil
